@@ -10,7 +10,7 @@ class DimensionError(Exception):
     ...
 
 def admittance_connected_to(network: Network, node: str) -> complex:
-    return sum(b.element.Y for b in network.branches_connected_to(node) if np.isfinite(b.element.Y))
+    return sum(b.element.Y for b in network.branches_connected_to(node) if b.node1 != b.node2 and np.isfinite(b.element.Y))
 
 def admittance_between(network: Network, node1: str, node2: str) -> complex:
     return sum([b.element.Y for b in network.branches_between(node1, node2) if np.isfinite(b.element.Y)])
@@ -32,11 +32,8 @@ def node_admittance_matrix(network: Network, node_index_mapper: map.NetworkMappe
 
 def voltage_source_incidence_matrix(network: Network, node_mapper: map.NetworkMapper = map.default_node_mapper, source_mapper: map.SourceIndexMapper = map.alphabetic_voltage_source_mapper) -> np.ndarray:
     def voltage_source_direction(voltage_source: str, node: str) -> int:
-        if network[voltage_source].node1 == node:
-            return 1
-        if network[voltage_source].node2 == node:
-            return -1
-        return 0
+        branch = network[voltage_source]
+        return (1 if branch.node1 == node else 0) - (1 if branch.node2 == node else 0)
     node_index = node_mapper(network)
     vs_index = source_mapper(network)
     A = np.zeros((node_index.N, vs_index.N))
@@ -57,9 +54,9 @@ def source_incidence_matrix(network: Network, node_mapper: map.NetworkMapper = m
     for cs in cs_index.keys:
         source_element = network[cs]
         if network.node_zero_label != source_element.node1:
-            Q[node_index[source_element.node1]][cs_index[cs]] = -1
+            Q[node_index[source_element.node1]][cs_index[cs]] -= 1
         if network.node_zero_label != network[cs].node2:
-            Q[node_index[source_element.node2]][cs_index[cs]] = 1
+            Q[node_index[source_element.node2]][cs_index[cs]] += 1
     return Q
 
 def current_source_vector(network: Network, source_mapper: map.SourceIndexMapper = map.alphabetic_current_source_mapper) -> np.ndarray:
